@@ -4,7 +4,12 @@ Families:
   grid   every (shape template, relation, log_trick, bounds mode) combination as the first constraint of a
          sequence of 1..4 constraints on one model
   rand   random sequences
-Every abstract case is run on the real code under three label realisations; all must agree with the model.
+  special  the ancilla-free special forms (x <= y, OR form 1 <= x + y, AND form z == x*y, sum <= 1) x 6 relations x
+         log_trick, with label realisations that contain True / False
+Every abstract case is run on the real code under five label realisations (ints, strings, int/str/tuple mix, False/True next
+to strings, and per case four labels drawn from a pool of unusual hashable types: None, False, True, floats, frozensets,
+ints, strings incl. "", tuples incl. ()); all must agree with the model, and a realisation that behaves differently is judged
+by the truth-table oracle on its own.
 """
 import itertools, json, warnings
 from fractions import Fraction
@@ -17,7 +22,9 @@ RULE = ("sequences of 1..4 add_constraint_R_zero calls on one PCBO: polynomials 
         "offset, constants/empty, always positive/negative, non-negative, non-positive, two-sided, cancelling raw keys, "
         "half-integer) x 6 relations x log_trick x 8 bounds modes (none, (None,None), exact, loose, left, right, "
         "non-integer loose, invalid[correspondence only]) x lam in {1,2,1/2,3}(+0) x operand type (dict with "
-        "unsorted/repeated labels, PUBO, PCBO) x number type (int, Fraction, dyadic float) x 3 label realisations; "
+        "unsorted/repeated labels, PUBO, PCBO) x number type (int, Fraction, dyadic float) x 5 label realisations (int, str, "
+        "int/str/tuple mix, False/True + strings, four labels from a pool of None / bool / float / frozenset / int / str / "
+        "tuple objects per case); family special: the four ancilla-free special forms x relation x log_trick with bool labels; "
         "non-trivial = first polynomial has >=2 terms and the call adds >=1 term; distinct = distinct case JSON")
 ASSUMPTIONS = ["float coefficients/bounds are restricted to dyadic rationals so IEEE arithmetic is exact",
                "the direct oracle enumerates all assignments of variables and ancillas only when their number is <= 12 "
@@ -33,6 +40,48 @@ BMS = ["none", "nonenone", "exact", "loose", "left", "right", "frac", "invalid"]
 TEMPLATES = ["rand", "sum1", "xley", "or", "and", "nonneg_off", "const", "pos", "neg", "nonneg", "nonpos", "two",
              "cancel", "half"]
 STYLES3 = ("int", "str", "mixed")
+# Further label realisations (label parametricity, DESIGN §3.1): "boolstr" = the labels False / True next to strings, and
+# "pool" = per case a random choice of four labels of unusual hashable types.  POOL is listed in the order of the documented
+# ordering_key (type name first, then the object), so that a sorted choice of indices is an order-preserving realisation of
+# the ids 0..3.  False == 0 and True == 1 as dict keys: a choice never contains both spellings of one key.  The frozensets form
+# a chain (their "<" is the subset order); the tuples are mutually comparable; no string starts with the ancilla prefix.
+POOL = [None, False, True, -1.5, 0.5, 2.5, frozenset(), frozenset({0}), frozenset({0, 1}), -3, 0, 1, 2, 7,
+        "", "a", "s1", "~", (), (0,), (0, 1), (1,)]
+assert all((str(type(a)), a) < (str(type(b)), b) if type(a) is type(b) else str(type(a)) < str(type(b))
+           for a, b in zip(POOL, POOL[1:]))
+# pairs of POOL positions holding equal dict keys of different types (list.index would find the bool for 0 / 1)
+POOL_CLASH = [(i, j) for i in range(len(POOL)) for j in range(i + 1, len(POOL)) if POOL[i] == POOL[j]]
+assert POOL_CLASH == [(1, 10), (2, 11)]
+STYLES_EXTRA = ("boolstr", "pool")
+
+
+class PoolLabels(Labels):
+    """ids 0..len(idx)-1 realised by POOL[idx[0]] < POOL[idx[1]] < ... (increasing indices)"""
+    def __init__(self, idx):
+        self.style = "pool"
+        self.l = [POOL[i] for i in idx]
+        self.inv = {x: i for i, x in enumerate(self.l)}
+        if len(self.inv) != len(self.l):
+            raise Infra("pool labels %r are not pairwise different dict keys" % (self.l,))
+        self._occ = 0
+
+
+def gen_pool(rng, k=4, need_bool=False):
+    while True:
+        idx = sorted(rng.sample(range(len(POOL)), k))
+        if any(a in idx and b in idx for a, b in POOL_CLASH):
+            continue
+        if need_bool and not any(isinstance(POOL[i], bool) for i in idx[:3]):
+            continue
+        return idx
+
+
+def styles_of(case):
+    return STYLES3 + (("boolstr", "pool") if case.get("xl") else ())
+
+
+def labels_for(case, style):
+    return PoolLabels(case["xl"]) if style == "pool" else Labels(style)
 
 def holds(rel, v):
     return {"eq": v == 0, "ne": v != 0, "lt": v < 0, "le": v <= 0, "gt": v > 0, "ge": v >= 0}[rel]
@@ -176,7 +225,7 @@ def gen_case(rng, family, first=None):
     if num == "float" and not all(dyadic(v) for s in seq for v in
                                   [x[1] for x in s["P"]] + [s["lam"]] + [b for b in (s["lo"], s["hi"]) if b is not None]):
         num = "frac"
-    return dict(family=family, n=nv, num=num, seq=seq)
+    return dict(family=family, n=nv, num=num, seq=seq, xl=gen_pool(rng))
 
 # ------------------------------------------------------------------ implementation side
 
@@ -219,7 +268,7 @@ def run_impl(case, style):
     """the real code; returns the state after every step, the validity table, and (per step) whether the
     library warns 'cannot be satisfied' when warnings are not suppressed"""
     import qubovert as qv
-    L = Labels(style)
+    L = labels_for(case, style)
     H = qv.PCBO()
     steps, warns, would = [], [], []
     try:
@@ -366,7 +415,7 @@ def process(ctx, cases, tags=None):
     for c, m in zip(cases, models):
         mv = model_view(m)
         first = None
-        for style in STYLES3:
+        for style in styles_of(c):
             impl, would = run_impl(c, style)
             ctx.traces += 1
             if impl != mv:
@@ -374,7 +423,15 @@ def process(ctx, cases, tags=None):
             if first is None:
                 first = (impl, would)
             elif impl != first[0]:
-                ctx.violation("C02:labels", c, "label realisation %s gives a different abstract result than %s" % (style, STYLES3[0]))
+                # the same abstract case under other labels behaves differently: judge that realisation with the truth-table
+                # oracle as well (it reads the canonical ids only), and name the concrete labels
+                bad = oracle(c, impl, would)
+                labs = "labels %s = %r" % (style, [labels_for(c, style).lab(i) for i in range(c["n"])])
+                if bad and not isinstance(bad, tuple):
+                    ctx.violation("C02:" + c["seq"][0]["rel"], c, "[%s] %s" % (labs, bad))
+                else:
+                    ctx.violation("C02:labels", c, "label realisation %s gives a different abstract result than %s (%s)" % (
+                        style, STYLES3[0], labs))
         impl, would = first
         adds = "err" not in impl and len(impl["steps"][0]["terms"]) >= 1
         ctx.case(c, len(c["seq"][0]["P"]) >= 2 and adds)
@@ -402,9 +459,26 @@ def grid_cases(rng, reps):
                         out.append(gen_case(rng, "grid", (t, rel, lt, bm)))
     return out
 
+SPECIAL = ["xley", "or", "and", "sum1"]
+
+def special_cases(rng, reps):
+    """the ancilla-free special forms (x <= y, 1 <= x + y, z == x*y, sum <= 1) reached through every relation, alone or
+    followed by one more constraint, with a pool realisation that contains a bool label among the first three ids"""
+    out = []
+    for _ in range(reps):
+        for t in SPECIAL:
+            for rel in RELS:
+                for lt in (True, False):
+                    c = gen_case(rng, "special", (t, rel, lt, rng.choice(["none", "none", "nonenone", "exact", "left", "right"])))
+                    c["seq"] = c["seq"][:2]
+                    c["xl"] = gen_pool(rng, need_bool=True)
+                    out.append(c)
+    return out
+
 def check(ctx):
     rng = ctx.rng
     cases = grid_cases(rng, ctx.scale(2, 12))
+    cases += special_cases(rng, ctx.scale(4, 40))
     cases += [gen_case(rng, "rand") for _ in range(ctx.scale(400, 12000))]
     tags = {}
     process(ctx, cases, tags)
@@ -427,11 +501,11 @@ def search(ctx):
             extra.append(dict(c, seq=[dict(s, sup=False, ptype="PUBO")], num="int"))
     extra += [gen_case(ctx.rng, "search") for _ in range(3000)]
     for c in extra:
-        for style in STYLES3[:1]:
+        for style in styles_of(c):
             impl, would = run_impl(c, style)
             bad = oracle(c, impl, would)
             if bad and not isinstance(bad, tuple):
-                ctx.violation("C02:" + c["seq"][0]["rel"], c, bad)
+                ctx.violation("C02:" + c["seq"][0]["rel"], c, "[labels %s] %s" % (style, bad))
 
 def replay(ctx, payload):
     c = payload.get("case") or (payload.get("first_difference") or {}).get("case")
